@@ -1,10 +1,11 @@
 #!/bin/bash
 # Applies every /verif/seeded/<id>/patch.diff to /repo in turn, runs the quick check of its property (plus the extra
-# properties named in seeded/<id>/also.txt), reverts, and writes seeded/<id>/detect.txt. usage: tools/detect_seeded.sh [prefix]
+# properties named in seeded/<id>/also.txt), reverts, and writes seeded/<id>/detect.txt. usage: [IDS="id id …"] tools/detect_seeded.sh [prefix]
 cd /verif
 for d in /verif/seeded/*/; do
   id=$(basename $d)
   [ -n "$1" ] && [[ "$id" != $1* ]] && continue
+  [ -n "$IDS" ] && [[ " $IDS " != *" $id "* ]] && continue
   prop=${id%%-*}
   props="$prop $(cat $d/also.txt 2>/dev/null)"
   out=$d/detect.txt
